@@ -70,10 +70,12 @@ package services
 //@   ensures error_leaves_state: [C16 C09] err != nil ==> state_unchanged()
 
 //@ func (*subscriberServer).DeleteSubscription(s, ctx, req) (resp, err)
-//@   property C16
+//@   property C16 C12
 //@   uses tables notifyspec
 //@   nopanic
 //@   requires s != nil && s.client != nil && req != nil && tables_wf()
+//@   ensures name_freed: [C12] err == nil ==> (forall x Id :: {subscriptions.name(x)} !sub_named(x, req.Subscription)) && (exists x Id :: old(sub_named(x, req.Subscription)))
+//@   ensures only_that_subscription: [C12] forall x Id :: {subscriptions.name(x)} !old(sub_named(x, req.Subscription)) ==> subscription_unchanged(x)
 //@   ensures error_leaves_state: [C16 C09] err != nil ==> state_unchanged()
 
 //@ func (*subscriberServer).ModifyAckDeadline(s, ctx, req) (resp, err)
@@ -142,17 +144,21 @@ package services
 //@   ensures error_leaves_state: [C16 C09] err != nil ==> state_unchanged()
 
 //@ func (*subscriberServer).DeleteSnapshot(s, ctx, req) (resp, err)
-//@   property C16
+//@   property C16 C12
 //@   uses tables notifyspec
 //@   nopanic
 //@   requires s != nil && s.client != nil && req != nil && tables_wf()
+//@   ensures name_freed: [C12] err == nil ==> (forall n Id :: {snapshots.name(n)} !(snapshots.exists(n) && snapshots.name(n) == req.Snapshot)) && (exists n Id :: old(snapshots.exists(n)) && old(snapshots.name(n)) == req.Snapshot)
+//@   ensures only_that_snapshot: [C12] forall n Id :: {snapshots.name(n)} old(snapshots.exists(n)) && old(snapshots.name(n)) != req.Snapshot ==> snapshots.exists(n)
 //@   ensures error_leaves_state: [C16 C09] err != nil ==> state_unchanged()
 
 //@ func (*publisherServer).CreateTopic(s, ctx, req) (resp, err)
-//@   property C16
+//@   property C16 C12
 //@   uses tables notifyspec
 //@   nopanic
 //@   requires s != nil && s.client != nil && req != nil && tables_wf()
+//@   ensures created: [C12] err == nil ==> resp != nil && (exists t Id :: topic_named(t, req.Name) && !old(topics.exists(t))) && (forall t Id :: {topics.name(t)} !old(topic_named(t, req.Name)))
+//@   ensures duplicate_refused: [C12] (exists t Id :: old(topic_named(t, req.Name))) ==> err != nil
 //@   ensures error_leaves_state: [C16 C09] err != nil ==> state_unchanged()
 
 // C12: Get succeeds exactly for live resources: it answers with the resource of that name when one is live, and with an
@@ -179,10 +185,12 @@ package services
 //@   ensures error_leaves_state: [C16 C09] err != nil ==> state_unchanged()
 
 //@ func (*publisherServer).DeleteTopic(s, ctx, req) (resp, err)
-//@   property C16
+//@   property C16 C12
 //@   uses tables notifyspec
 //@   nopanic
 //@   requires s != nil && s.client != nil && req != nil && tables_wf()
+//@   ensures name_freed: [C12] err == nil ==> (forall t Id :: {topics.name(t)} !topic_named(t, req.Topic)) && (exists t Id :: old(topic_named(t, req.Topic)))
+//@   ensures only_that_topic: [C12] forall t Id :: {topics.name(t)} !old(topic_named(t, req.Topic)) ==> topic_unchanged(t)
 //@   ensures error_leaves_state: [C16 C09] err != nil ==> state_unchanged()
 
 // C01 / C02 / C16: Publish answers with one id per message of the request, in order, and the i-th id is the id of a
